@@ -49,6 +49,14 @@ func (v *FV) resolveCallee(fr *Frame, cc *ssa.CallCommon) (*Contract, *ssa.Funct
 		return nil, f
 	case *ssa.MakeClosure:
 		return nil, f.Fn.(*ssa.Function)
+	case *ssa.UnOp:
+		// call through a package-level function variable (test seam): contract on the variable
+		if g, ok := f.X.(*ssa.Global); ok && g.Pkg != nil {
+			if c, ok := db.Contracts[g.Pkg.Pkg.Path()+"."+g.Name()]; ok {
+				v.trusted["function variable "+shortKey(g.Pkg.Pkg.Path())+"."+g.Name()+" is assumed to satisfy its declared contract"] = true
+				return c, nil
+			}
+		}
 	}
 	if ci, ok := fr.closures[cc.Value]; ok {
 		return nil, ci.fn
@@ -235,6 +243,18 @@ func (v *FV) execLock(fr *Frame, st *State, cc *ssa.CallCommon, kind string, pos
 	env.addr = nil
 	if p := v.pkgOf(ld.Pkg); p != nil {
 		env.pkg = p
+	}
+	hk := ld.Owner + "." + ld.Field + "@" + owner
+	switch kind {
+	case "lock":
+		st.held[hk] = "w"
+	case "rlock":
+		st.held[hk] = "r"
+	case "unlock", "runlock":
+		delete(st.held, hk)
+	}
+	if ld.Invariant == "" {
+		return
 	}
 	switch kind {
 	case "lock", "rlock":
@@ -425,7 +445,7 @@ func (v *FV) modArrayNames(con *Contract, callee *ssa.Function, cc *ssa.CallComm
 	v.quiet++
 	defer func() { v.quiet-- }()
 	saveScript := len(v.script)
-	st := &State{reach: "false", snap: &Snapshot{ep: v.newEpoch(0), over: map[string]Term{}}, env: map[string]TV{}, addr: map[string]TV{}}
+	st := &State{reach: "false", snap: &Snapshot{ep: v.newEpoch(0), over: map[string]Term{}}, env: map[string]TV{}, addr: map[string]TV{}, held: map[string]string{}}
 	vars, pkg := v.contractVarsSymbolic(con, callee, cc)
 	if vars == nil {
 		v.script = v.script[:saveScript]
@@ -548,6 +568,16 @@ func (v *FV) doCall(fr *Frame, st *State, cc *ssa.CallCommon, recvTV TV, args []
 		return v.freshResults(st, rt, "lock")
 	}
 	con, callee := v.resolveCallee(fr, cc)
+	if callee != nil && !cc.IsInvoke() && len(cc.Args) > 0 && callee.Signature.Recv() != nil {
+		if strings.HasPrefix(fnKey(callee), "go.uber.org/atomic.") || strings.HasPrefix(fnKey(callee), "sync/atomic.") {
+			switch callee.Name() {
+			case "Store", "Add", "Sub", "Inc", "Dec", "CompareAndSwap", "CAS", "Swap", "Toggle":
+				if owner, ot, path := fieldPathOf(cc.Args[0]); owner != nil {
+					v.locksetCheck(fr, st, owner, ot, path+".val", true, pos)
+				}
+			}
+		}
+	}
 	if con != nil && !con.Inline {
 		return v.applyContract(fr, st, con, callee, cc, recvTV, args, pos)
 	}
@@ -586,7 +616,10 @@ func (v *FV) inline(fr *Frame, st *State, callee *ssa.Function, args []TV, bindi
 	nf.con = v.eng.db.Contracts[fnKey(callee)]
 	v.inlineStack = append(v.inlineStack, fnKey(callee))
 	saveKey := v.curFnKey
-	sub := &State{reach: st.reach, snap: st.snap.clone(), env: map[string]TV{}, addr: map[string]TV{}}
+	sub := &State{reach: st.reach, snap: st.snap.clone(), env: map[string]TV{}, addr: map[string]TV{}, held: map[string]string{}}
+	for k, m := range st.held {
+		sub.held[k] = m
+	}
 	exits := v.execBody(nf, sub)
 	v.curFnKey = saveKey
 	v.inlineStack = v.inlineStack[:len(v.inlineStack)-1]
@@ -614,6 +647,18 @@ func (v *FV) inline(fr *Frame, st *State, callee *ssa.Function, args []TV, bindi
 		st.reach = conds[0]
 	} else {
 		st.reach = v.define(nf.prefix+"Rret", "Bool", "(or "+strings.Join(conds, " ")+")")
+	}
+	st.held = map[string]string{}
+	for k, m := range normal[0].st.held {
+		keep := true
+		for _, e := range normal[1:] {
+			if _, ok := e.st.held[k]; !ok {
+				keep = false
+			}
+		}
+		if keep {
+			st.held[k] = m
+		}
 	}
 	var res []TV
 	for i := 0; i < rt.Len(); i++ {
@@ -770,8 +815,20 @@ func (v *FV) freshResultsFor(st *State, rt *types.Tuple, prefix string, fresh bo
 			continue
 		}
 		n := v.declare(prefix+"_"+fmt.Sprint(i), s)
-		if s == "Int" && v.isRefType(et) {
-			v.assume(st.reach, v.refOK(n))
+		if v.isRefLike(et) {
+			// a returned reference either existed before (<= N0), is one of the objects
+			// allocated so far, or is new (the contract may say fresh(result)): in that
+			// case it is distinct from everything else. It joins the allocated list.
+			var distinct []string
+			for _, o := range v.fresh {
+				distinct = append(distinct, fmt.Sprintf("(distinct %s %s)", n, o))
+			}
+			newObj := fmt.Sprintf("(> %s %s)", n, v.n0)
+			if len(distinct) > 0 {
+				newObj = fmt.Sprintf("(and (> %s %s) %s)", n, v.n0, strings.Join(distinct, " "))
+			}
+			v.assume(st.reach, fmt.Sprintf("(and (>= %s 0) (or %s %s))", n, v.refOK(n), newObj))
+			v.fresh = append(v.fresh, n)
 		} else {
 			v.assume(st.reach, v.typeFacts(n, et))
 		}
@@ -1013,7 +1070,7 @@ func (env *ExprEnv) callGo(e *ast.CallExpr) (TV, bool) {
 		fail("Go call %s in pure context", fn.Name())
 	}
 	v.quiet++
-	st := &State{reach: "true", snap: env.heapNow().clone(), env: map[string]TV{}, addr: map[string]TV{}}
+	st := &State{reach: "true", snap: env.heapNow().clone(), env: map[string]TV{}, addr: map[string]TV{}, held: map[string]string{}}
 	if env.reach != "" {
 		st.reach = env.reach
 	}
